@@ -183,7 +183,8 @@ let monitor_obs (m : mon) (o : obs) =
      violations seen from here on in this trace carry this signature *)
   List.iter (fun (id, s) ->
       let t = int_field s "term" in
-      if field s "role" = "L" && m.tag = "" && not (Hashtbl.mem m.votes (Printf.sprintf "elected/%s/%d" id t)) then begin
+      if field s "role" = "L" && not (try ignore (Str.search_forward (Str.regexp_string "elected-under-stale-configuration") m.tag 0); true with Not_found -> false)
+         && not (Hashtbl.mem m.votes (Printf.sprintf "elected/%s/%d" id t)) then begin
         let conf = field s "conf" in
         let conf_index = try int_of_string (String.sub conf 0 (String.index conf '{')) with _ -> 0 in
         let newest = List.fold_left (fun acc (i, e) ->
@@ -191,8 +192,28 @@ let monitor_obs (m : mon) (o : obs) =
             | Some j when j + 1 < String.length e && e.[j + 1] = 'c' -> max acc i
             | _ -> acc) 0 (parse_log (field s "log")) in
         if newest > conf_index then
-          m.tag <- Printf.sprintf "[elected-under-stale-configuration node %s term %d uses %s, its log holds a configuration at index %d] " id t conf newest
+          m.tag <- m.tag ^ Printf.sprintf "[elected-under-stale-configuration node %s term %d uses %s, its log holds a configuration at index %d] " id t conf newest
       end) up;
+  (* open finding D10: an InstallSnapshot chunk of an OLDER snapshot (smaller last included index) is accepted
+     into the partially received file of a NEWER one (its offset equals the file's size); violations seen from
+     here on in this trace carry this signature *)
+  List.iter (fun (cid, _, dst, st, req, resp) ->
+      let key = Printf.sprintf "is-answered/%d" cid in
+      if st = "A" && not (Hashtbl.mem m.votes key) then begin
+        Hashtbl.replace m.votes key "1";
+        match String.split_on_char ' ' req with
+        | "IS" :: _ :: _ :: lii :: _ :: _ :: off :: _ ->
+            (match Hashtbl.find_opt m.votes ("partial-of/" ^ dst) with
+             | Some prev when prev <> "-" ->
+                 (match String.split_on_char ':' prev with
+                  | [pl; _; poff] when int_of_string pl > int_of_string lii && poff = off && resp <> "-" ->
+                      if not (try ignore (Str.search_forward (Str.regexp_string "older-chunk-into-newer-partial") m.tag 0); true with Not_found -> false) then
+                        m.tag <- m.tag ^ Printf.sprintf "[older-chunk-into-newer-partial node %s: chunk of snapshot %s at offset %s accepted into the partial file of snapshot %s] " dst lii off pl
+                  | _ -> ())
+             | _ -> ())
+        | _ -> ()
+      end) o.calls;
+  List.iter (fun (id, s) -> Hashtbl.replace m.votes ("partial-of/" ^ id) (field s "partial")) up;
   (* C02: one leader per term *)
   let see_leader term id =
     match Hashtbl.find_opt m.leaders term with
@@ -522,7 +543,7 @@ let enabled_classes (m : node) : int list =
   @ (if m.n_cv.cv_election then [1] else [])
   @ (if m.n_cv.cv_commit then [2] else [])
   @ (if m.n_cv.cv_apply then [3] else [])
-  @ (if m.n_cv.cv_ro then [4] else [])
+  @ (if m.n_cv.cv_ro then [4; 5] else [])
 
 let class_labels (m : node) (cls : int) (task : int) : label list =
   match cls with
@@ -530,7 +551,8 @@ let class_labels (m : node) (cls : int) (task : int) : label list =
   | 1 -> [LElectionRun m.n_id]
   | 2 -> [LCommit m.n_id]
   | 3 -> [LApply m.n_id]
-  | _ -> [LRo m.n_id]
+  | 4 -> [LRo m.n_id]
+  | _ -> [LRoMissed m.n_id]   (* the wake-up of readOnlyLoop is lost *)
 
 (* choose : node -> enabled classes -> (class, task index) *)
 let rec settle_by (choose : node -> int list -> int * int) (fuel : int) (w : world) : world =
@@ -641,7 +663,7 @@ let coq_label (l : label) : string =
   | LRemoveServer (x, id) -> Printf.sprintf "LRemoveServer %s %s" (n x) (n id)
   | LSnapshot x -> "LSnapshot " ^ n x | LCrash x -> "LCrash " ^ n x | LRestart x -> "LRestart " ^ n x
   | LBudget (x, k) -> Printf.sprintf "LBudget %s %s" (n x) (n k) | LPad (x, k) -> Printf.sprintf "LPad %s %s" (n x) (n k)
-  | LDefer x -> "LDefer " ^ n x | LTask x -> "LTask " ^ n x | LElectionRun x -> "LElectionRun " ^ n x
+  | LDefer x -> "LDefer " ^ n x | LRoMissed x -> "LRoMissed " ^ n x | LTask x -> "LTask " ^ n x | LElectionRun x -> "LElectionRun " ^ n x
   | LCommit x -> "LCommit " ^ n x | LApply x -> "LApply " ^ n x | LRo x -> "LRo " ^ n x
   | LInstallResume x -> "LInstallResume " ^ n x
 
